@@ -152,9 +152,15 @@ class Gen:
         for e in db.values():
             if e['ok']:
                 self.alts.setdefault(e['cls'], []).append(e['name'])
+        # small self-contained constructors used as objects nested in bytes fields
+        self.small = sorted(e['name'] for e in db.values() if e['ok'] and len(e['fields']) <= 4 and
+                            all(f['t']['k'] in ('int', 'long', 'nat', 'Bool', 'int128', 'int256', 'string', 'bytes') and not f['c'] for f in e['fields']))
+        self.minimal = False
 
     def leaf(self, k, hint=None):
         rng = self.rng
+        if self.minimal and hint is None:
+            return {'int': 0, 'long': 0, 'nat': 0, 'Bool': False, 'int128': '00' * 16, 'int256': '00' * 32, 'string': '', 'bytes': b'', 'true': True}[k]
         if k == 'int':
             return rng.choice([0, 1, -1, 2 ** 31 - 1, -2 ** 31, rng.randint(-2 ** 31, 2 ** 31 - 1)])
         if k == 'long':
@@ -167,6 +173,9 @@ class Gen:
             return bytes(rng.getrandbits(8) for _ in range(16)).hex()
         if k == 'int256':
             return bytes(rng.getrandbits(8) for _ in range(32)).hex()
+        if k == 'bytes' and isinstance(hint, dict):
+            # a bytes field that carries boxed TL objects (as ADNL queries and answers do): hint = {'nest': k}
+            return {'@nested': [self.ctor(self.rng.choice(self.small), 2, tag=True) for _ in range(hint['nest'])]}
         if k in ('bytes', 'string'):
             n = hint if hint is not None else rng.choice([0, 1, 2, 3, 4, 5, 11, 40])
             if k == 'string':
@@ -184,13 +193,13 @@ class Gen:
 
     def of_type(self, t, depth, hint=None):
         if t['k'] == 'vector':
-            n = hint if hint is not None else self.rng.choice([0, 1, 3]) if depth < 3 else 0
+            n = hint if hint is not None else 0 if self.minimal else self.rng.choice([0, 1, 3]) if depth < 3 else 0
             return [self.of_type(t['of'], depth + 1) for _ in range(n)]
         if t['k'] == 'bare':
             return self.ctor(t['n'], depth + 1)
         if t['k'] == 'boxed':
             alts = self.alts[t['cls']]
-            name = self.rng.choice(alts) if depth < 2 else min(alts, key=lambda a: self.weight(a))
+            name = self.rng.choice(alts) if depth < 2 and not self.minimal else min(alts, key=lambda a: self.weight(a))
             return self.ctor(name, depth + 1, tag=True)
         return self.leaf(t['k'], hint)
 
@@ -220,7 +229,7 @@ class Gen:
                 bits = sorted({g['c'][1] for g in e['fields'] if g['c'] and g['c'][0] == i + 1})
                 if flags is not None and f['n'] in flags:
                     v = flags[f['n']]
-                elif depth >= 3:
+                elif depth >= 3 or self.minimal:
                     v = 0
                 else:
                     v = sum(1 << b for b in bits if self.rng.random() < 0.5)
@@ -261,7 +270,16 @@ def conv(db, t, v):
     if k == 'string':
         return list(v.encode()) if isinstance(v, str) else list(v)
     if k == 'bytes':
-        return list(v)
+        # raw bytes, or boxed objects carried in the field (given as {'@nested': [...]}; parsed back as a dict or a list of dicts)
+        if isinstance(v, (bytes, bytearray)):
+            return {'raw': list(v)}
+        if isinstance(v, dict) and '@nested' in v:
+            return {'obj': [to_spec(db, x['@type'], x) for x in v['@nested']]}
+        if isinstance(v, dict) and '@type' in v:
+            return {'obj': [to_spec(db, v['@type'], v)]}
+        if isinstance(v, list) and v and all(isinstance(x, dict) and '@type' in x for x in v):
+            return {'obj': [to_spec(db, x['@type'], x) for x in v]}
+        return {'unexpected': repr(type(v))}
     if k == 'true':
         return 1
     if k == 'vector':
@@ -271,3 +289,18 @@ def conv(db, t, v):
     if k == 'boxed':
         return to_spec(db, v['@type'], v)
     raise ValueError(k)
+
+
+def lib_value(tl, v):
+    """generator value -> what the library takes: {'@nested': [one]} is given as that object, several as their concatenated
+    boxed serialisations (the only form the serialiser accepts for more than one)"""
+    if isinstance(v, dict) and '@nested' in v:
+        objs = [lib_value(tl, x) for x in v['@nested']]
+        if len(objs) == 1:
+            return objs[0]
+        return b''.join(tl.serialize(tl.get_by_name(x['@type']), x, boxed=True) for x in objs)
+    if isinstance(v, dict):
+        return {k: lib_value(tl, x) for k, x in v.items()}
+    if isinstance(v, list):
+        return [lib_value(tl, x) for x in v]
+    return v
